@@ -21,6 +21,28 @@ def nodes_of(o, acc):
     return acc
 
 
+def to_obj_short(t, L):
+    """the same tree built through the constructors' shorthand: atoms as `str`, constants as `bool` operands"""
+    if t == 'tt':
+        return L.Bool(True)
+    if t == 'ff':
+        return L.Bool(False)
+    if t[0] == 'ap':
+        return L.AtomicProposition(t[1])
+    from common import CLASSNAME
+    kids = []
+    for c in t[1:]:
+        if c == 'tt':
+            kids.append(True)
+        elif c == 'ff':
+            kids.append(False)
+        elif c[0] == 'ap':
+            kids.append(c[1])
+        else:
+            kids.append(to_obj_short(c, L))
+    return getattr(L, CLASSNAME[t[0]])(*kids)
+
+
 def run(res):
     rng = rng_for('C11')
     quick = res.tier == 'quick'
@@ -38,9 +60,31 @@ def run(res):
     for M, pool in pools.items():
         L = lang(M)
         pool = F.dedup(list(pool) + nary)
-        if len(pool) > (120 if quick else 400):
-            pool = rng.sample(pool, 120 if quick else 400)
+        if len(pool) > (110 if quick else 380):
+            pool = rng.sample(pool, 110 if quick else 380)
+        # n-ary operators of different arity sharing a prefix of operands, built from state-like members of the pool
+        base = [t for t in pool if (M != 'CTL' or F.is_ctl_state(t)) and (M != 'LTL' or F.is_ltl_path(t))][:6] or [('ap', 'p'), ('ap', 'q')]
+        for op in ('or', 'and'):
+            for _ in range(5):
+                a, b, c = (rng.choice(base) for _ in range(3))
+                pool += [(op, a, b), (op, a, b, c), (op, a, b, a), (op, a, b, c, a)]
+        pool = F.dedup(pool)
         objs = [to_obj(t, L) for t in pool]
+        # a second construction route for the same trees
+        short = [to_obj_short(t, L) for t in pool]
+        for t, o, o2 in zip(pool, objs, short):
+            if from_obj(o2) != t:
+                viol.append(('shorthand construction builds another tree', M, t, from_obj(o2)))
+                continue
+            if not (o == o2 and o2 == o):
+                viol.append(('the same tree built with shorthand operands is not == to the one built from nodes', M, t, t))
+            if hash(o) != hash(o2):
+                viol.append(('the same tree built in two ways has two different hashes', M, t, t))
+            if o2 not in {o} or o not in {o2: 1}:
+                viol.append(('the same tree built in two ways is two different keys in a set / dict', M, t, t))
+            c2 = o2.clone()
+            if hash(c2) != hash(o2) or c2 not in {o2}:
+                viol.append(('clone() of a shorthand-built formula is another key in a set', M, t, t))
         for (i, a), (j, b) in itertools.product(enumerate(objs), repeat=2):
             eq = (a == b)
             heq = (hash(a) == hash(b))
